@@ -581,7 +581,7 @@ public:
     key_type get_splitter(unsigned int i) const
     {
         return splitter_tree_
-            [PerfectTreeCalculations<treebits>::pre_to_levelorder(i)];
+            [PerfectTreeCalculations<treebits>::pre_to_levelorder(i + 1)];
     }
 
 private:
